@@ -73,8 +73,13 @@ func NewChildEnvironment(parent *Environment) *Environment {
 // writes it. The block therefore gets its own deep copy of every object and array
 // visible where it is spawned (taken on the spawning goroutine, before the block
 // starts), in a scope of its own between the parent's scope and the block's.
+//
+// The block evaluates on its own goroutine, so it also gets its own
+// recursion-depth counter: sharing the parent's would make the depth limit
+// apply to the sum of all blocks that happen to overlap, and whether a request
+// with many blocks succeeds would depend on how they are scheduled.
 func newAsyncScope(parent *Environment) *Environment {
-	snapshot := NewChildEnvironment(parent)
+	snapshot := newEvaluationRoot(parent)
 	for name, val := range parent.GetAll() {
 		switch val.(type) {
 		case map[string]interface{}, []interface{}:
